@@ -135,7 +135,7 @@ def c08_4(ctx: Ctx):
             raise AnalysisError(f"emitter extraction blind: {must} not found")
 
 
-@rule("C08.5", ["C08", "C09"], "patch CFI is dropped outside procedures (decided on the original offset) and implicit inside", 6)
+@rule("C08.5", ["C08", "C09", "C04"], "patch CFI is dropped outside procedures (decided on the original offset) and implicit inside", 6)
 def c08_5(ctx: Ctx):
     repo = ctx.repo
     fi = repo.func("rewriting.RewritingContext._apply_modifications")
